@@ -415,6 +415,7 @@ func (w *wd) prepare(ref string, id uint64, p roundPlan, forced *usedTx) *prepar
 		class = []string{"faithful"}
 	}
 	a.Class = strings.Join(class, "+")
+	a.assignee = relayer
 	a.gas = qm.GetGasEstimate()
 	a.tx = tx
 	a.rcOK = p.Receipt == rcOK && rc != nil && rc.Status == 1
@@ -612,6 +613,7 @@ func (w *wd) attest(prs []*prepared, p roundPlan) {
 			w.rec.Count("rounds_not_attested", 1)
 			w.note("NOTE round %s: attestation did not run", a.key())
 		}
+		w.relayMetric(a)
 		if a.acceptedN > 0 && len(w.reasons(a)) == 0 && a.Reuse == "" {
 			u := &usedTx{Action: a.Action, Chain: a.Chain, Tx: a.tx, Receipt: pr.rc}
 			if a.Action == actValset {
@@ -620,6 +622,31 @@ func (w *wd) attest(prs []*prepared, p roundPlan) {
 			u.Gas = a.gas
 			u.Signers = a.signers
 			w.usedTxs[a.Action] = append(w.usedTxs[a.Action], u)
+		}
+	}
+}
+
+// relayMetric (informational, not part of the verdict: the statement does not list the relay
+// metric among the success effects): does the metrix module record the relay as successful?
+func (w *wd) relayMetric(a *attempt) {
+	qm := a.assignee
+	if qm == nil {
+		return
+	}
+	h, err := w.c.App.MetrixKeeper.GetValidatorHistory(w.c.Ctx(), qm.ValAddr())
+	if err != nil || h == nil {
+		return
+	}
+	for _, r := range h.Records {
+		if r.MessageId == a.MsgID {
+			switch {
+			case r.Success && a.acceptedN == 0:
+				w.rec.Count("info/relay_metric_success_recorded_for_rejected_proof", 1)
+			case r.Success:
+				w.rec.Count("info/relay_metric_success_recorded_for_accepted_proof", 1)
+			default:
+				w.rec.Count("info/relay_metric_failure_recorded", 1)
+			}
 		}
 	}
 }
